@@ -503,10 +503,46 @@ func generateOutputScenario(g gen, sc *Scenario) {
 	sc.Cfg = RunConfig{Store: "none", Logs: true, RealRunner: true, HTTP: true, MaxSteps: 1500, WParked: 4, WClient: 3, WAdvance: 1}
 }
 
+// logsOfQuietTasks asks the log API for every task of the job that has produced
+// nothing (yet): a task that waits, was skipped, or belongs to a job that never
+// started. The answers are not judged beyond "no output of anybody else" - what
+// matters is that such requests happen before the logs of other tasks are read
+// (a handler that mishandles the empty case must not spoil later answers).
+func (m *monState) logsOfQuietTasks(name string, j *JobSnap) {
+	run := m.run
+	w := run.cur
+	a := m.acc[name]
+	if w == nil || w.srv == nil || a == nil || j == nil {
+		return
+	}
+	for _, ts := range a.Def.Tasks {
+		if len(m.eventsFor(name, "run-enter", ts.Name)) > 0 {
+			continue
+		}
+		req := httptest.NewRequest("GET", "/job/logs?id="+j.ID+"&task="+url.QueryEscape(ts.Name), nil)
+		req.Header.Set("Authorization", authHeader(w))
+		rec := httptest.NewRecorder()
+		w.srv.ServeHTTP(rec, req)
+		var body struct {
+			Stdout string `json:"stdout"`
+			Stderr string `json:"stderr"`
+		}
+		if rec.Code == http.StatusOK && json.Unmarshal(rec.Body.Bytes(), &body) == nil && body.Stdout+body.Stderr != "" {
+			run.violate("C19", "r5", "job %s task %q has not begun to run, GET /job/logs returns %d/%d bytes of output for it (%.40q)", name, ts.Name, len(body.Stdout), len(body.Stderr), body.Stdout+body.Stderr)
+		}
+		run.probe("log_api_quiet_task")
+	}
+}
+
 func (m *monState) checkOutputLogs() {
 	run := m.run
 	w := run.cur
 	s := run.pre
+	for _, name := range m.order {
+		if a := m.acc[name]; a != nil && a.World == w.id {
+			m.logsOfQuietTasks(name, s.Jobs[name])
+		}
+	}
 	for _, name := range m.order {
 		a := m.acc[name]
 		j := s.Jobs[name]
